@@ -1,8 +1,9 @@
 /-
   C09 — Concurrent auto-commit writes lose no updates.
   Statements only (helper lemmas: Nervus.Proofs.SchedCapi).
-  Model: Nervus.Model.SchedCapi (LTS of nervusdb-capi `execute_write_count`, the order of
-  `db.snapshot()` / `db.begin_write()` is the regenerated `Generated.autoCommitLockFirst`).
+  Model: Nervus.Model.SchedCapi — LTS of nervusdb-capi `execute_write_count` + `WriteTxn::commit`.
+  Regenerated from the source on every run (`Generated.CallOrder`): the order of `db.snapshot()` /
+  `db.begin_write()`, and where `commit` releases the writer guard relative to its publication stores.
   Spec: Nervus.Spec.Serial.
 -/
 import Nervus.Proofs.SchedCapi
@@ -10,87 +11,123 @@ import Nervus.Spec.Serial
 namespace Nervus.Props.C09
 open Nervus Nervus.SchedCapi
 
-/-- **C09 at full strength**, for the call order found in the source: every reachable state of any
+/-- what the source says (regenerated) -/
+def sourceCfg : Cfg :=
+  { lockFirst := Generated.autoCommitLockFirst,
+    earlyLabel := Generated.commitEarlyReleaseLabel,
+    earlyPlain := Generated.commitEarlyReleasePlain }
+
+/-- **C09 at full strength**, for the code as the extractor finds it: every reachable state of any
     number of threads running any statements under any interleaving is serializable. -/
 def C09_full : Prop :=
   ∀ (σ : Type) (prog : Nat → List (Stmt σ)) (d0 : σ) (s : State σ),
-    Reach Generated.autoCommitLockFirst (init prog d0) s → Serializable prog d0 s
+    Reach sourceCfg (init prog d0) s → Serializable prog d0 s
 
 /-- the source takes the writer lock BEFORE the snapshot (regenerated table entry) -/
 theorem order_in_source : Generated.autoCommitOrder = [.beginWrite, .snapshot] ∧
     Generated.autoCommitLockFirst = true := by decide
 
-/-- **Linearizability of the lock-then-snapshot order**: all traces, any number of threads,
-    unbounded length (induction over `Reach`; invariant "no snapshot is older than the lock
-    holder's"). -/
+/-- the source holds the writer guard until the transaction's effects are PUBLISHED to later
+    snapshots: in `WriteTxn::commit` no release of `_guard` precedes the idmap / node-label / run
+    stores (regenerated: the guard's release is the last event of `commitLockSeq`). -/
+theorem guard_released_after_publication_in_source :
+    Generated.commitEarlyReleaseLabel = false ∧ Generated.commitEarlyReleasePlain = false ∧
+    Generated.commitLockSeq.getLast? = some "releaseGuard" ∧
+    Generated.commitLockSeq.count "releaseGuard" = 1 := by decide
+
+theorem source_is_safe : sourceCfg = safeCfg := by
+  simp only [sourceCfg, safeCfg, order_in_source.2, guard_released_after_publication_in_source.1,
+    guard_released_after_publication_in_source.2.1]
+
+/-- **Linearizability** when the lock is taken before the snapshot AND held until the staged writes
+    are published: all traces, any number of threads, unbounded length (induction over `Reach`;
+    invariant "no snapshot is older than the lock holder's"). -/
 theorem linearizable_lock_first {σ : Type} (prog : Nat → List (Stmt σ)) (d0 : σ) (s : State σ)
-    (h : Reach true (init prog d0) s) : Serializable prog d0 s :=
+    (h : Reach safeCfg (init prog d0) s) : Serializable prog d0 s :=
   ⟨(reach_invLock h).lin, (reach_invProg h).order⟩
 
 /-- **C09** for the code as it is. -/
 theorem C09 : C09_full := by
   intro σ prog d0 s h
-  rw [order_in_source.2] at h
+  rw [source_is_safe] at h
   exact linearizable_lock_first prog d0 s h
 
 /-- When every thread has finished, the commit order contains each thread's whole program, in
     program order: the final state is the result of SOME sequential order of ALL statements. -/
 theorem final_state_is_a_serial_run {σ : Type} (prog : Nat → List (Stmt σ)) (d0 : σ) (s : State σ)
-    (h : Reach true (init prog d0) s) (hd : AllDone s) :
+    (h : Reach safeCfg (init prog d0) s) (hd : AllDone s) :
     s.db = runSeq (s.hist.map (·.2)) d0 ∧ ∀ i, doneOf s i = prog i := by
   obtain ⟨h1, h2⟩ := linearizable_lock_first prog d0 s h
   exact ⟨h1, fun i => by have := h2 i; rw [hd i] at this; simpa using this⟩
 
-/-- While a thread owns the writer lock, no other thread commits: mutual exclusion of the
-    lock-delimited section (all traces). -/
+/-- While a thread owns the writer lock, no other thread does: mutual exclusion (all traces). -/
 theorem one_lock_owner {σ : Type} (prog : Nat → List (Stmt σ)) (d0 : σ) (s : State σ)
-    (h : Reach true (init prog d0) s) (i j : Nat)
+    (h : Reach safeCfg (init prog d0) s) (i j : Nat)
     (hi : (s.threads i).pc.holds) (hj : (s.threads j).pc.holds) : i = j := by
   have a := (reach_invLock h).owner i hi
   have b := (reach_invLock h).owner j hj
   rw [a] at b; cases b; rfl
 
-private theorem lostUpdate_isSome :
-    (runTrace false (init (prog2 .inc .inc) 0) (raceSchedule false).1).isSome = true := by decide
+def d0 : Db := ⟨0, 0, 0, 0⟩
 
-/-- the final state of the lost-update schedule (snapshot-then-lock order) -/
-def lostUpdateState : State Int :=
-  (runTrace false (init (prog2 .inc .inc) 0) (raceSchedule false).1).get lostUpdate_isSome
+/-- final state of the lost-update schedule for the snapshot-then-lock order -/
+def lostUpdateState : State Db := (forced ⟨false, false, false⟩ .between (init (prog2 .inc .inc) d0)).1
 
-/-- **Counterexample for the snapshot-then-lock order** (the order of the pinned tree before the
-    `fix:` commit): two threads, each `SET n.v = n.v + 1`, forced schedule
-    `snap 0; snap 1; lock 1; exec 1; commit 1; unlock 1; lock 0; exec 0; commit 0; unlock 0`.
-    Both statements commit, yet the counter is 1 while both sequential orders give 2. -/
+/-- **Counterexample 1 — snapshot before lock** (the pinned tree before fix `2408d9b`): two threads,
+    each `SET c.v = c.v + 1`; thread 0 takes its snapshot, thread 1 runs its whole statement,
+    thread 0 continues.  Both commit, the counter is 1, both sequential orders give 2. -/
 theorem C09_counterexample :
-    ∃ s, Reach false (init (prog2 .inc .inc) 0) s ∧ AllDone s ∧ s.db = 1 ∧
-      runSeq [CStmt.inc.toStmt, CStmt.inc.toStmt] 0 = 2 ∧
-      ¬ Serializable (prog2 .inc .inc) 0 s := by
-  refine ⟨lostUpdateState, reach_of_runTrace (raceSchedule false).1 .refl (Option.some_get lostUpdate_isSome).symm,
-    ?_, by decide, by decide, ?_⟩
+    Reach ⟨false, false, false⟩ (init (prog2 .inc .inc) d0) lostUpdateState ∧ AllDone lostUpdateState ∧
+      lostUpdateState.db.v = 1 ∧ (runSeq [CStmt.inc.toStmt, CStmt.inc.toStmt] d0).v = 2 ∧
+      ¬ Serializable (prog2 .inc .inc) d0 lostUpdateState := by
+  refine ⟨reach_forced _, ?_, by decide, by decide, ?_⟩
   · intro i
     match i with
     | 0 => rfl
     | 1 => rfl
     | _ + 2 => rfl
   · intro hser
-    have := hser.1
+    have := congrArg Db.v hser.1
+    revert this
+    decide
+
+/-- final state when `commit` releases the writer guard before `publish_run` for label-mutating transactions -/
+def earlyReleaseState : State Db :=
+  (forced ⟨true, true, false⟩ .afterRelease (init (prog2 .incA .incA) d0)).1
+def earlyReleaseMerge : State Db :=
+  (forced ⟨true, true, false⟩ .afterRelease (init (prog2 (.merge 0) (.merge 0)) d0)).1
+
+/-- **Counterexample 2 — writer guard released before publication** (lock-first order!): thread 0
+    runs `SET c.v = c.v + 1 CREATE (:A)` up to the point in `commit` after `drop(self._guard)` and before
+    `publish_run`; thread 1 takes the lock and its snapshot — which lacks thread 0's acknowledged write —
+    and commits; thread 0 publishes.  Counter 1 after two successful increments (two audit nodes);
+    with `MERGE (:S {k:0})` twice the key exists twice. -/
+theorem C09_counterexample_early_release :
+    Reach ⟨true, true, false⟩ (init (prog2 .incA .incA) d0) earlyReleaseState ∧ AllDone earlyReleaseState ∧
+      earlyReleaseState.db = ⟨1, 2, 0, 0⟩ ∧ runSeq [CStmt.incA.toStmt, CStmt.incA.toStmt] d0 = ⟨2, 2, 0, 0⟩ ∧
+      ¬ Serializable (prog2 .incA .incA) d0 earlyReleaseState ∧
+      earlyReleaseMerge.db = ⟨0, 0, 2, 0⟩ ∧
+      runSeq [(CStmt.merge 0).toStmt, (CStmt.merge 0).toStmt] d0 = ⟨0, 0, 1, 0⟩ := by
+  refine ⟨reach_forced _, ?_, by decide, by decide, ?_, by decide, by decide⟩
+  · intro i
+    match i with
+    | 0 => rfl
+    | 1 => rfl
+    | _ + 2 => rfl
+  · intro hser
+    have := congrArg Db.v hser.1
     revert this
     decide
 
 /-! non-vacuity -/
-/-- the lock-first model really runs the same two increments to 2 under the corresponding schedule -/
-example : race true 0 .inc .inc = some (2, true) := by decide
-/-- and the snapshot-first model loses one -/
-example : race false 0 .inc .inc = some (1, false) := by decide
-private theorem mid_isSome :
-    (runTrace true (init (prog2 .inc .dbl) 5) [.lock 0, .snap 0, .exec 0, .commit 0]).isSome = true := by decide
-private def midState : State Int :=
-  (runTrace true (init (prog2 .inc .dbl) 5) [.lock 0, .snap 0, .exec 0, .commit 0]).get mid_isSome
-/-- a reachable non-trivial state of the lock-first system: thread 0 committed, thread 1 waiting -/
-example : ∃ s, Reach true (init (prog2 .inc .dbl) 5) s ∧ s.db = 6 ∧ s.lock = some 0 :=
-  ⟨midState, reach_of_runTrace [.lock 0, .snap 0, .exec 0, .commit 0] .refl (Option.some_get mid_isSome).symm,
-   by decide, by decide⟩
+/-- lock first and guard held to the end: the same schedules lose nothing, thread 1 is blocked meanwhile -/
+example : race safeCfg .between d0 .inc .inc = (⟨2, 0, 0, 0⟩, true) ∧
+    race safeCfg .inCommit d0 .incA .incA = (⟨2, 2, 0, 0⟩, true) ∧
+    race safeCfg .afterRelease d0 (.merge 0) (.merge 0) = (⟨0, 0, 1, 0⟩, true) := by decide
+/-- with the early release, statements WITHOUT label mutation still publish under the lock -/
+example : race ⟨true, true, false⟩ .afterRelease d0 .inc .inc = (⟨2, 0, 0, 0⟩, true) := by decide
 /-- statements that read what they write are order-sensitive: `inc;dbl ≠ dbl;inc` -/
-example : runSeq [CStmt.inc.toStmt, CStmt.dbl.toStmt] 5 = 12 ∧ runSeq [CStmt.dbl.toStmt, CStmt.inc.toStmt] 5 = 11 := by decide
+example : (runSeq [CStmt.inc.toStmt, CStmt.dbl.toStmt] ⟨5, 0, 0, 0⟩).v = 12 ∧
+    (runSeq [CStmt.dbl.toStmt, CStmt.inc.toStmt] ⟨5, 0, 0, 0⟩).v = 11 := by decide
 
 end Nervus.Props.C09
